@@ -540,15 +540,15 @@ def yield_at_locks(text):
     for ln in text.split("\n"):
         m = _LOCK_RE.match(ln)
         if m:
-            out.append("%sverifYield(); %s.%s()" % m.groups())
+            out.append("%sverifYield(); %s.%s(); verifHeld.Add(1)" % m.groups())
             continue
         m = _UNLOCK_RE.match(ln)
         if m:
-            out.append("%s%s.%s(); verifYield()" % m.groups())
+            out.append("%sverifHeld.Add(-1); %s.%s(); verifYield()" % m.groups())
             continue
         m = _DEFER_UNLOCK_RE.match(ln)
         if m:
-            out.append("%sdefer func() { %s.%s(); verifYield() }()" % m.groups())
+            out.append("%sdefer func() { verifHeld.Add(-1); %s.%s(); verifYield() }()" % m.groups())
             continue
         out.append(ln)
     return "\n".join(out)
